@@ -43,6 +43,16 @@ pub fn def() -> PropDef {
                 check: ser_misc::cpc_layout,
             }),
             Box::new(PropSub {
+                name: "cpc_every_coupon_count",
+                rule: "the image after EVERY coupon count: exact arrival-time streams at lg_k 4..=12 fed one coupon at a time up to C = 3.75 k .. 31 k (every flavor threshold, the first window moves, every pseudo-phase boundary), directly or through a union; decoded by the independent FM85 decoder and compared with the model matrix. non-trivial = reached the Pinned flavor",
+                cases_quick: 48,
+                cases_thorough: 1_000,
+                max_shrink_iters: 30,
+                limit_factor: 3,
+                strategy: ser_misc::cpc_sweep_case,
+                check: ser_misc::cpc_sweep_layout,
+            }),
+            Box::new(PropSub {
                 name: "frequent_items",
                 rule: "C11's Frequent Items generator; image decoded (preLongs 1 = 8-byte empty image, 4 otherwise; lgMax, lgCur, flags, activeItems, streamWeight, offset, counts, items as longs or length-prefixed UTF-8) and compared with the exact stream weight and the sketch's counters. non-trivial = purged",
                 cases_quick: 60_000,
